@@ -746,4 +746,46 @@ example : Url.zone25 (lit "[fe80::1%eth0]") = false ∧ Url.zone25 (lit "[::1%25
 example : (send1 none "http://[FE80::1%25eth0]:8080/").toOption.map (fun r => (r.dialHost, r.dialPort)) =
     some (lit "fe80::1%eth0", 8080) := by decide +kernel
 
+/--
+**The host's letter case does not influence the parse nor the routing — every kind of ASCII host text**
+(extends `C15_host_case_parse_partial`, which covers plain reg-names only).  For http/https URL texts
+`scheme://[userinfo@]HOST rest` whose HOST is a reg-name in the sense of `_HOST_PORT_RE` — any
+characters but the delimiters, with or without `%HH` escapes (`Url.regText`; dotted quads included) — or
+a bracketed IPv6 literal (`_IPV6_ADDRZ_RE`): two ASCII spellings of HOST that differ in letter case only
+parse to the same `Url` (or fail alike) and are routed alike from every manager state.  A zone id is
+case-sensitive on purpose, so for a literal with a zone id the part from `%` on must be spelled
+identically (`hz`).  Rests on the case-blindness of the address matchers (`C14_matchers_case_blind`).
+Not covered: IDN hosts (`idna.encode` is an oracle; non-ASCII case mapping is outside the model). -/
+theorem C15_host_case_parse (idna : Str → Option Str) (sc P au H₁ H₂ rest : Str) (hsc : SchemeText sc)
+    (hs : lower sc = http ∨ lower sc = https) (hP : UiPrefix P au) (hPa : ∀ c ∈ P, Url.authChar c = true)
+    (hk₁ : Url.regText H₁ = true ∨ Url.ipv6AddrzMatch H₁ = true)
+    (hk₂ : Url.regText H₂ = true ∨ Url.ipv6AddrzMatch H₂ = true)
+    (ha₁ : H₁.all (· < 128) = true) (ha₂ : H₂.all (· < 128) = true) (hl : lower H₁ = lower H₂)
+    (hz : Url.ipv6AddrzMatch H₁ = true → H₁.dropWhile (· != 37) = H₂.dropWhile (· != 37))
+    (hrest : rest = [] ∨ ∃ c t, rest = c :: t ∧ (c = 58 ∨ Url.authChar c = false))
+    (h64 : 64 ∉ rest.takeWhile Url.authChar) (m : Mgr) (carried : List (Str × Str)) :
+    Url.parseUrlWith idna (urlText sc P H₁ rest) = Url.parseUrlWith idna (urlText sc P H₂ rest) ∧
+    routeUrl idna m (urlText sc P H₁ rest) carried = routeUrl idna m (urlText sc P H₂ rest) carried := by
+  have := parseUrlWith_host_case_gen idna sc P au H₁ H₂ rest hsc hs hP hPa hk₁ hk₂ ha₁ ha₂ hl hz hrest h64
+  refine ⟨this, ?_⟩
+  unfold routeUrl
+  rw [this]
+
+-- non-vacuity: "http://[FE80::A%25eth0]:8080/x" vs "http://[fe80::a%25eth0]:8080/x" (literal with the same
+-- zone id), and "https://A%2Fb.COM/" vs "https://a%2fB.com/" (reg-name with an escape)
+example : urlText (lit "http") [] (lit "[FE80::A%25eth0]") (lit ":8080/x") = lit "http://[FE80::A%25eth0]:8080/x" := by
+  decide
+example : Url.ipv6AddrzMatch (lit "[FE80::A%25eth0]") = true ∧ Url.ipv6AddrzMatch (lit "[fe80::a%25eth0]") = true ∧
+    (lit "[FE80::A%25eth0]").all (· < 128) = true ∧ (lit "[fe80::a%25eth0]").all (· < 128) = true ∧
+    lower (lit "[FE80::A%25eth0]") = lower (lit "[fe80::a%25eth0]") ∧
+    (lit "[FE80::A%25eth0]").dropWhile (· != 37) = (lit "[fe80::a%25eth0]").dropWhile (· != 37) ∧
+    64 ∉ (lit ":8080/x").takeWhile Url.authChar := by decide +kernel
+example : (Url.parseUrl (lit "http://[FE80::A%25eth0]:8080/x")).toOption.map (·.host) =
+    some (some (lit "[fe80::a%eth0]")) := by decide +kernel
+example : Url.regText (lit "A%2Fb.COM") = true ∧ Url.regText (lit "a%2fB.com") = true ∧
+    lower (lit "A%2Fb.COM") = lower (lit "a%2fB.com") ∧ Url.ipv6AddrzMatch (lit "A%2Fb.COM") = false := by
+  decide +kernel
+example : (Url.parseUrl (lit "https://A%2Fb.COM/")).toOption.map (·.host) = some (some (lit "a%2fb.com")) := by
+  decide +kernel
+
 end U3.Props
